@@ -10,6 +10,12 @@ result is `some results` (`none` would mean "outside the modelled behaviour": `c
 import CLModel.Checks.Android
 import CLModel.Proofs.C09Spec
 import CLModel.Proofs.C09Check
+import CLModel.Proofs.C09Java
+import CLModel.Proofs.C09Text
+import CLModel.Proofs.C09WalkTop
+import CLModel.Proofs.C09PosCheck
+import CLModel.Proofs.C09Wrap
+import CLModel.Proofs.C09Canon
 namespace C09
 open Android Android.Spec
 
@@ -257,5 +263,335 @@ example : check { textEnt refV with node := { (textEnt refV).node with name := [
 example : check { textEnt badV with node := { (textEnt badV).node with name := [112] } }
     { textEnt badV with node := { (textEnt badV).node with name := [112] } }
     = some [warn 0 .unsupported] := by decide
+
+/-! ## Round 4 — the checker's three predicates as exact characterisations -/
+
+open C09P in
+/-- `get_params` is sound and complete for the Java `Formatter` numbering, stated as a RELATION (`Numbered`:
+    `k$` addresses argument k, an ordinary specifier takes the next sequential index, the two counters are
+    independent): for EVERY numbering `us` of the lexed specifiers that the relation permits (there is exactly one,
+    `numbered_exists_unique`), the dict maps p to f iff the first specifier addressing p has conversion f, `count` is the
+    number of specifiers, and the error list consists exactly of the later uses whose conversion differs from the first. -/
+theorem get_params_java (v : List Nat) :
+    ∃ st, getParams [.str v] = some st ∧
+      ∀ us, Numbered 1 (lex v) us →
+        (∀ p f, dget st.params p = some f ↔ FirstUse us p f) ∧
+        st.count = us.length ∧
+        (∀ e, e ∈ st.errors ↔
+          ∃ u f, u ∈ us ∧ FirstUse us u.1 f ∧ f ≠ u.2.fmt ∧ e = (Msg.conflict u.1 u.2.fmt f, u.2.pos)) := by
+  obtain ⟨st, h, hp, hc, he, _⟩ := params_model v
+  refine ⟨st, h, ?_⟩
+  intro us hus
+  have := numbered_unique hus
+  subst this
+  refine ⟨fun p f => ?_, by rw [hc, uses_length], fun e => ?_⟩
+  · rw [hp, firstUse_iff]; rfl
+  · rw [he]; exact mem_conflictsOf _ e
+
+open C09P in
+/-- the numbering relation is functional and total: exactly one numbering exists -/
+theorem numbered_exists_unique (n : Nat) (ts : List Tok) : ∃ us, Numbered n ts us ∧ ∀ us', Numbered n ts us' → us' = us :=
+  ⟨uses n ts, numbered_uses n ts, fun _ h => numbered_unique h⟩
+
+/-- `get_params` reports a conflict iff some argument is addressed with two different conversions -/
+theorem get_params_conflict_iff (v : List Nat) :
+    ∃ st, getParams [.str v] = some st ∧ (st.errors ≠ [] ↔ Conflict v) := by
+  obtain ⟨st, h, _, _, he, _⟩ := params_model v
+  exact ⟨st, h, by rw [he]; exact (conflict_iff_conflictsOf v).symm⟩
+
+/-- `check_apostrophes` yields something iff it yields an error iff: two adjacent straight quotes once every escape
+    `\x` is blanked out, or an apostrophe survives silencing (`\x` and `""` blanked) in a value that does not both start
+    and end with a straight quote.  For ALL strings. -/
+theorem apostrophes_error_iff (v : List Nat) :
+    (checkApostrophes v ≠ [] ↔ DoubledQuote (blankEsc v) ∨ (¬ Quoted (silence v) ∧ 39 ∈ silence v)) ∧
+    (hasError (checkApostrophes v) = true ↔ checkApostrophes v ≠ []) := by
+  have hne : hasError (checkApostrophes v) = true ↔ checkApostrophes v ≠ [] := by
+    constructor
+    · intro h hnil; rw [hnil] at h; cases h
+    · intro h
+      cases hc : checkApostrophes v with
+      | nil => exact absurd hc h
+      | cons r rs =>
+        have := checkApostrophes_all_errors v r (by rw [hc]; simp)
+        simp [hasError, this]
+  exact ⟨hne.symm.trans (hasError_checkApostrophes v), hne⟩
+
+/-- `non_simple_data(node)` is False exactly for: no children, a single text child, or exactly one CDATA section
+    among text children that are all white-space (no element, comment or other sibling).  For ALL child lists. -/
+theorem non_simple_data_iff (n : Node) : nonSimpleData n = false ↔ SimpleData n :=
+  nonSimpleData_iff n
+
+/-- `textContent` returns the data of the FIRST CDATA child wherever it stands among the children (not only when it is
+    `firstChild`). -/
+theorem textContent_cdata_anywhere (n : Node) (pre post : List Child) (d : List Nat)
+    (hc : n.children = pre ++ .cdata d :: post) (h : ∀ c ∈ pre, c.isCdata = false) : textContent n = d :=
+  C09P.textContent_cdata_anywhere n pre post d hc h
+
+/-- without a CDATA child `textContent` is "" (no children), the data of the only child if that is a text node, and
+    `node.toxml()` otherwise -/
+theorem textContent_no_cdata (n : Node) (h : ∀ c ∈ n.children, c.isCdata = false) :
+    textContent n = match n.children with
+      | [] => []
+      | [.text d] => d
+      | _ => n.xml :=
+  C09P.textContent_no_cdata n h
+
+/-- on every node shape the checker accepts (`SimpleData`), `textContent` is: "" for no children, the data of the single
+    text child, the data of THE CDATA section when there is exactly one among white-space-only text -/
+theorem textContent_simple (n : Node) (h : SimpleData n) :
+    (n.children = [] ∧ textContent n = []) ∨ (∃ d, n.children = [.text d] ∧ textContent n = d) ∨
+    (∃ pre d post, n.children = pre ++ .cdata d :: post ∧ (∀ c ∈ pre ++ post, WhiteText c) ∧ textContent n = d) :=
+  C09P.textContent_simple n h
+
+/-- the seeded regression "look at firstChild only" differs from `textContent` on `"\n  " CDATA[x] "\n"` -/
+example : textContent ⟨[], none, [.text [10, 32, 32], .cdata [120], .text [10]], []⟩ = [120] := by decide
+
+/-! ## Round 4 — the parser (`AndroidParser.walk` on the minidom node summary) -/
+
+open AndroidP C09P
+
+/-- **Every `<string name=…>` child of `<resources>` yields exactly one AndroidEntity, in document order, with
+    key = its `name` attribute and raw_val = `textContent(element)`**; more precisely the entities and junk entries
+    of the walk, without their attached comment / white-space, are exactly what `handleElement` makes of the element
+    children one by one (`elemEntry`): nothing is skipped, duplicated or reordered, whatever stands between the elements. -/
+theorem walk_string_entities {contents : List Nat} {docChildren : List DNode} {name : List Nat}
+    {attrs : List (List Nat × List Nat)} {children : List DNode} {ol : Bool} {es : List Entry}
+    (hroot : documentElement? docChildren = some (.element name attrs children))
+    (hname : name = Gen.TablesAndroid.resources_tag)
+    (h : walk (some (contents, .doc docChildren)) ol = some es) :
+    es.filterMap entityKV = (children.filter isStringElem).map (fun n => (nameOf n, rawOf n)) ∧
+    (es.filter isLoc).map core = (children.filter DNode.isElement).map (elemEntry none none) := by
+  rw [walk_resources ol hroot hname] at h
+  cases hb : walkLoop ol (children.length + 1) children with
+  | none => simp [hb] at h
+  | some body =>
+    simp [hb] at h
+    have hel := walkLoop_elements (by omega) hb
+    have hcore : (es.filter isLoc).map core = (children.filter DNode.isElement).map (elemEntry none none) := by
+      rw [← h, ← hel]
+      cases ol <;> simp [List.filter_append, filterLoc_wrappers, isLoc, Entry.isEntity, Entry.isJunk]
+    refine ⟨?_, hcore⟩
+    rw [filterMap_entityKV, hcore, filterMap_elems]
+
+/-- `walk(only_localizable=True)` (= `Parser.__iter__`, `Parser.parse()`) yields exactly the AndroidEntity and XMLJunk
+    entries of `walk()`, for every input (nothing loaded, parse error, any document) -/
+theorem walk_only_localizable (ctx : Option (List Nat × Parsed)) :
+    walk ctx true = (walk ctx false).map (List.filter isLoc) := by
+  match ctx with
+  | none => rfl
+  | some (contents, .error) => rfl
+  | some (contents, .doc docChildren) =>
+    cases hd : documentElement? docChildren with
+    | none => simp [walk, hd]
+    | some root =>
+      have hre := (documentElement?_mem hd).2
+      cases root <;> simp [DNode.isElement] at hre
+      rename_i name attrs children
+      by_cases hname : name = Gen.TablesAndroid.resources_tag
+      · rw [walk_resources true hd hname, walk_resources false hd hname, walkLoop_ol _ _ (by omega)]
+        cases walkLoop false (children.length + 1) children with
+        | none => rfl
+        | some body =>
+          simp [List.filter_append, filterLoc_wrappers, isLoc, Entry.isEntity, Entry.isJunk]
+      · simp only [walk, hd]
+        simp [hname]
+        cases docToxml? docChildren <;> simp [isLoc, Entry.isJunk]
+
+/-- `walk` does not raise on a tree that can be serialised (no `]]>` inside a CDATA node, no `--` inside a comment —
+    true of every tree the XML parser builds) and has a document element -/
+theorem walk_total {contents : List Nat} {docChildren : List DNode} (ol : Bool)
+    (hroot : (documentElement? docChildren).isSome = true) (hp : printableList docChildren = true) :
+    (walk (some (contents, .doc docChildren)) ol).isSome = true := by
+  cases hd : documentElement? docChildren with
+  | none => simp [hd] at hroot
+  | some root =>
+    obtain ⟨hmem, hre⟩ := documentElement?_mem hd
+    have hpr := printable_of_mem hp hmem
+    cases root <;> simp [DNode.isElement] at hre
+    rename_i name attrs children
+    by_cases hname : name = Gen.TablesAndroid.resources_tag
+    · rw [walk_resources ol hd hname]
+      obtain ⟨es, he⟩ := walkLoop_total ol (children.length + 1) children (by omega)
+        (by simpa [DNode.printable] using hpr)
+      simp [he]
+    · simp only [walk, hd]
+      simp [hname, docToxml?, toxmlList?, hp]
+
+/-- where the hypothesis of `walk_total` bites: a hand-made CDATA node containing `]]>` makes `toxml()`, hence `walk`, raise -/
+example : walk (some ([], .doc [.element Gen.TablesAndroid.resources_tag [] [.cdata [93, 93, 62]]])) false = none := by decide
+
+/-- **What "lossless" means for this parser, unconditionally**: the concatenation of the `all` texts of `walk()` is the
+    fixed head `<?xml version="1.0" encoding="utf-8"?>\n<resources`, the root attributes as ` name=` + `quoteattr(value)`,
+    `>`, the `toxml()` serialisations of a SUB-SEQUENCE `ks` of the root's children in document order, and
+    `</resources>\n`.  So every `all` text is a function of the node summary (not of the bytes: quoting style, entity
+    references, the XML declaration, `<a></a>` vs `<a/>` are gone), nothing is invented, duplicated or reordered;
+    nodes may be dropped (`walk_lossless` says when none is). -/
+theorem walk_all_sublist {contents : List Nat} {docChildren : List DNode} {name : List Nat}
+    {attrs : List (List Nat × List Nat)} {children : List DNode} {es : List Entry}
+    (hroot : documentElement? docChildren = some (.element name attrs children))
+    (hname : name = Gen.TablesAndroid.resources_tag)
+    (h : walk (some (contents, .doc docChildren)) false = some es) :
+    ∃ ks, ks.Sublist children ∧
+      allText es = Gen.TablesAndroid.open_all ++ attrs.flatMap rawAttr ++ Gen.TablesAndroid.gt_all ++
+        toxmlList ks ++ Gen.TablesAndroid.close_all := by
+  rw [walk_resources false hroot hname] at h
+  cases hb : walkLoop false (children.length + 1) children with
+  | none => simp [hb] at h
+  | some body =>
+    simp [hb] at h
+    obtain ⟨ks, hsub, hall⟩ := walkLoop_sublist (by omega) hb
+    refine ⟨ks, hsub, ?_⟩
+    rw [← h]
+    have hc : ∀ (e : Entry) (l : List Entry), allText (e :: l) = e.all ++ allText l := fun _ _ => by simp [allText]
+    have hn : allText [] = [] := rfl
+    simp only [hc, hn, allText_append, allText_wrappers, hall, Entry.all]
+    simp [List.append_assoc]
+
+/-- **Nothing is lost** when the children of `<resources>` are `<string name=…>` elements, text and comments, no two
+    text nodes are adjacent (the XML parser fuses them) and the list does not end with a comment followed by a text
+    node with at most one newline: then the `all` texts concatenate to the serialisation of ALL children. -/
+theorem walk_lossless {contents : List Nat} {docChildren : List DNode} {name : List Nat}
+    {attrs : List (List Nat × List Nat)} {children : List DNode} {es : List Entry}
+    (hroot : documentElement? docChildren = some (.element name attrs children))
+    (hname : name = Gen.TablesAndroid.resources_tag)
+    (h : walk (some (contents, .doc docChildren)) false = some es) (hcl : Clean children) :
+    allText es = Gen.TablesAndroid.open_all ++ attrs.flatMap rawAttr ++ Gen.TablesAndroid.gt_all ++
+        toxmlList children ++ Gen.TablesAndroid.close_all := by
+  rw [walk_resources false hroot hname] at h
+  cases hb : walkLoop false (children.length + 1) children with
+  | none => simp [hb] at h
+  | some body =>
+    simp [hb] at h
+    have hall := walkLoop_clean (by omega) hb hcl
+    rw [← h]
+    have hc : ∀ (e : Entry) (l : List Entry), allText (e :: l) = e.all ++ allText l := fun _ _ => by simp [allText]
+    have hn : allText [] = [] := rfl
+    simp only [hc, hn, allText_append, allText_wrappers, hall, Entry.all]
+    simp [List.append_assoc]
+
+/-- **Round trip on the canonical serialisation**: if moreover the root has at least one child and the values of its
+    attributes contain none of `& < > " \n \r \t`, the `all` texts concatenate to
+    `<?xml version="1.0" encoding="utf-8"?>\n` + `documentElement.toxml()` + `\n` — the document itself when it is written
+    in that form. -/
+theorem walk_roundtrip {contents : List Nat} {docChildren : List DNode}
+    {attrs : List (List Nat × List Nat)} {c : DNode} {cs : List DNode} {es : List Entry}
+    (hroot : documentElement? docChildren = some (.element Gen.TablesAndroid.resources_tag attrs (c :: cs)))
+    (h : walk (some (contents, .doc docChildren)) false = some es) (hcl : Clean (c :: cs))
+    (hattr : ∀ a ∈ attrs, a.2.all plainChar = true) :
+    allText es = xmlDecl ++ (DNode.element Gen.TablesAndroid.resources_tag attrs (c :: cs)).toxml ++ [10] := by
+  rw [walk_lossless hroot rfl h hcl, rawAttrs_plain attrs hattr, toxml_resources]
+  obtain ⟨h1, h2, h3⟩ := frame_constants
+  rw [h1, h2, h3]
+  simp [List.append_assoc]
+
+/-! ### the hypotheses of `walk_lossless` are needed: one witness per excluded shape (`decide` on the model; the
+    harness sends the same documents through the real parser) -/
+
+def kEl : DNode := .element Gen.TablesAndroid.string_tag [(Gen.TablesAndroid.name_attr, [107])] [.text [118]]
+def resDoc (cs : List DNode) : Option (List Nat × Parsed) := some ([], .doc [.element Gen.TablesAndroid.resources_tag [] cs])
+/-- the serialisations of the nodes that `walk()` keeps -/
+def keptText (cs : List DNode) : Option (List Nat) :=
+  (walk (resDoc cs) false).map (fun es => allText ((es.drop 2).dropLast))
+
+/-- non-vacuity: a clean list (white-space, comment, white-space, string, white-space) keeps everything -/
+example : keptText [.text [10], .comment [99], .text [10, 32], kEl, .text [10]] =
+    some (toxmlList [.text [10], .comment [99], .text [10, 32], kEl, .text [10]]) := by decide
+/-- a processing instruction is dropped -/
+example : keptText [.pi [112] [100], kEl] = some (toxmlList [kEl]) := by decide
+/-- a CDATA section after comment + short white-space is dropped -/
+example : keptText [.comment [99], .text [10], .cdata [120], kEl] = some (toxmlList [.comment [99], .text [10], kEl]) := by decide
+/-- a comment after comment + CDATA is dropped -/
+example : keptText [.comment [99], .cdata [120], .comment [100], kEl] =
+    some (toxmlList [.comment [99], .cdata [120], kEl]) := by decide
+/-- the white-space after the last comment is dropped when it has at most one newline … -/
+example : keptText [kEl, .text [10], .comment [99], .text [10]] = some (toxmlList [kEl, .text [10], .comment [99]]) := by decide
+/-- … and kept when it has two -/
+example : keptText [kEl, .text [10], .comment [99], .text [10, 10]] =
+    some (toxmlList [kEl, .text [10], .comment [99], .text [10, 10]]) := by decide
+/-- a comment (and the white-space after it) in front of an element that is not `<string name=…>` is dropped -/
+example : keptText [.comment [99], .text [10], .element [112] [] []] = some (toxmlList [.element [112] [] []]) := by decide
+/-- the text stored for a root attribute is ` name=` + `quoteattr(value)` (since /repo bf6a07b): `a="&amp;"` for the
+    value `&`, as `toxml()` writes it; for a value with a double quote the two serialisations differ in the quoting
+    style only (`'1"'` vs `"1&quot;"`) -/
+example : (walk (some ([], .doc [.element Gen.TablesAndroid.resources_tag [([97], [38]), ([98], [49, 34])] []])) false).map
+    (fun es => (es.map Entry.all).take 3 |>.drop 1) =
+      some [[32, 97, 61, 34, 38, 97, 109, 112, 59, 34], [32, 98, 61, 39, 49, 34, 39]] ∧
+    writeAttrs [([97], [38]), ([98], [49, 34])] =
+      [32, 97, 61, 34, 38, 97, 109, 112, 59, 34] ++ [32, 98, 61, 34, 49, 38, 113, 117, 111, 116, 59, 34] := by decide
+
+/-! ### AndroidEntity.wrap (what the serializer calls to write a new value into an entity) -/
+
+/-- `wrap` raises UnboundLocalError exactly for an element without child nodes (`<string name="a"/>`) -/
+theorem wrap_unbound_iff (pre inner : Option Lit) (name : List Nat) (attrs : List (List Nat × List Nat))
+    (children : List DNode) (a k r v raw : List Nat) :
+    (Entry.entity pre inner (.element name attrs children) a k r v).wrap raw = .error .unbound ↔ children = [] :=
+  C09P.wrap_unbound_iff pre inner name attrs children a k r v raw
+
+/-- one text child: the new value becomes the text of the element (escaped by `toxml`) -/
+theorem wrap_single_text (pre inner : Option Lit) (name : List Nat) (attrs : List (List Nat × List Nat))
+    (d a k r v raw : List Nat) :
+    (Entry.entity pre inner (.element name attrs [.text d]) a k r v).wrap raw =
+      .ok (k, raw, optAll pre ++ optAll inner ++ (DNode.element name attrs [.text raw]).toxml) :=
+  C09P.wrap_single_text pre inner name attrs d a k r v raw
+
+/-- one element child (`<string name="a"><b>x</b></string>`): the new value is NOT written, the text stays as it was -/
+theorem wrap_single_element_ignored (pre inner : Option Lit) (name : List Nat) (attrs : List (List Nat × List Nat))
+    (n2 : List Nat) (as2 : List (List Nat × List Nat)) (cs2 : List DNode) (a k r v raw : List Nat)
+    (hp : printableList cs2 = true) :
+    (Entry.entity pre inner (.element name attrs [.element n2 as2 cs2]) a k r v).wrap raw =
+      .ok (k, raw, optAll pre ++ optAll inner ++ (DNode.element name attrs [.element n2 as2 cs2]).toxml) :=
+  C09P.wrap_single_element_ignored pre inner name attrs n2 as2 cs2 a k r v raw hp
+
+/-! ### positions (C05 / C17 contract) and history -/
+
+/-- `position(offset)` and `value_position(offset)` of every Android entry (AndroidEntity, XMLJunk, XMLWhitespace,
+    XMLComment, DocumentWrapper) are the constant `(0, offset)`: Android entries have no spans (finding F5), line 0 is
+    not a line of the file, and a negative offset ("end of the entity") is passed through — `XMLJunk.error_message()`
+    therefore says "from line 0 column 0 to line 0 column -1". -/
+theorem entry_positions (e : Entry) (offset : Int) :
+    e.position offset = (0, offset) ∧ e.valuePosition offset = (0, offset) := ⟨rfl, rfl⟩
+
+/-- the `(line, column)` that `ContentComparer.compare` / `lint_value` report for a check result on an Android entity is
+    `(0, pos)` with `pos` the natural number the checker yielded: a well-formed pair of integers, line 0, column ≥ 0 -/
+theorem check_result_position (e : Entry) (r : Android.Result) :
+    resolvePos e r = (0, (r.pos : Int)) ∧ (0 : Int) ≤ (resolvePos e r).2 := by
+  unfold resolvePos
+  split <;> simp [Entry.position, Entry.valuePosition]
+
+/-- **Where the positions of check results point** (C05 / C17 contract: well-formed non-negative integers, and more):
+    every result of `AndroidChecker.check` is either the encoding warning, whose position is the offset of a U+FFFD
+    inside `l10nEnt.all`, or has position 0, or an offset inside the localized value (apostrophes, doubled quotes,
+    conflicts within the translation), or an offset inside the REFERENCE text (the "Conflicting formatting" warnings about
+    the reference, which `compare` nevertheless reports as a column of the localized value). -/
+theorem check_positions_inside (ref l10n : Entity) :
+    ∃ rs, check ref l10n = some rs ∧
+      ∀ r ∈ rs, (r.msg = .mojibake ∧ l10n.all[r.pos]? = some 0xFFFD) ∨
+        r.pos = 0 ∨ r.pos < l10n.val.length ∨ r.pos < (textContent ref.node).length := by
+  obtain ⟨rs, h, _⟩ := check_spec ref l10n
+  exact ⟨rs, h, C09P.check_pos h⟩
+
+/-- the last alternative of `check_positions_inside` is needed: a conflict inside the reference `aaaa %1$s %1$d` is
+    reported at offset 10 although the translation is empty -/
+example : check (textEnt [97, 97, 97, 97, 32, 37, 49, 36, 115, 32, 37, 49, 36, 100]) (textEnt []) =
+    some [warn 10 (.conflict 1 [100] [115]), warn 0 (.notInL10n 1 [115])] := by decide
+
+/-- no history in the checker: the results for the entities of a document do not depend on which entities were checked
+    before (one AndroidChecker object for the whole file = a fresh one per entity) -/
+theorem docCheck_append (ref l1 l2 : List Entry) : docCheck ref (l1 ++ l2) = docCheck ref l1 ++ docCheck ref l2 := by
+  simp [docCheck, List.filterMap_append]
+
+/-- `walk` has no state apart from the process-wide junk counter: the counter values of the XMLJunk entries of a walk
+    are `start+1, start+2, …` in yield order -/
+theorem junkCounters_spec (start : Nat) (es : List Entry) :
+    (junkCounters start es).filterMap id = (List.range (es.filter Entry.isJunk).length).map (· + start + 1) := by
+  induction es generalizing start with
+  | nil => rfl
+  | cons e es ih =>
+    unfold junkCounters
+    by_cases hj : e.isJunk = true
+    · simp only [hj, if_true, List.filterMap_cons, id, List.filter_cons, List.length_cons]
+      rw [ih (start + 1), List.range_succ_eq_map]
+      simp [Function.comp_def]; intro a _; omega
+    · simp [hj, ih start]
 
 end C09
